@@ -776,7 +776,7 @@ pub fn run_c19(ctx: &Ctx) -> Report {
     }
     // random value trees
     {
-        let cases = ctx.pick(3_000u64, 60_000, 2_000_000);
+        let cases = ctx.pick(3_000u64, 200_000, 2_000_000);
         let proto = Sub::new("random_value_trees", "seeded random JSON value trees shaped like each composite type (right field names / arity, leaves from boundary integers, arbitrary integers, floats, bools, strings, null; missing fields; seq and map forms)", "non-trivial = the input was accepted, or is of the right shape; distinct by hash", false);
         let mut sub = par_proptest(
             ctx,
@@ -839,4 +839,37 @@ pub fn replay_c19(_sub: &str, case: &Value) -> Option<CheckResult> {
 
 pub fn fuzz_text(ty: &str, text: &str) -> Result<bool, Fail> {
     check_tree_text(ty, text)
+}
+
+/// C07, second configuration (features serde + serde_repr): a ControlChange14BitMessage can be
+/// *created* exactly for MSB controller numbers 0-31 - also through deserialization.
+pub fn run_c07_serde(ctx: &Ctx) -> Report {
+    let mut sub = Sub::new(
+        "creation_by_deserialization",
+        "ControlChange14BitMessage deserialized (map and seq form, serde's typed deserializers via serde_json::Value and JSON text) for all 128 controller numbers x channels {0,15} x values {0,16383}: accepted exactly for 0-31 and equal to new(..)",
+        "non-trivial = controller number outside 0-31",
+        true,
+    );
+    for cn in 0..=128i64 {
+        for ch in [0i64, 15] {
+            for v in [0i64, 16383] {
+                for form in 0..2u8 {
+                    let (a, b, c) = (json!(ch), json!(cn), json!(v));
+                    sub.eval(cn as u128, || json!({"kind": "cc14", "channel": a, "msb_controller_number": b, "value": c, "form": form}), || {
+                        let nt = cc14_case(&a, &b, &c, form)?;
+                        let input = if form == 0 { json!({"channel": a, "msb_controller_number": b, "value": c}) } else { json!([a, b, c]) };
+                        let accepted = serde_json::from_value::<ControlChange14BitMessage>(input).is_ok();
+                        ensure!(accepted == (cn <= 31), "ControlChange14BitMessage/creation_by_deserialization", "MSB controller {} accepted: {}", cn, accepted);
+                        Ok(nt)
+                    });
+                }
+            }
+        }
+    }
+    sub.add_samples(129, ctx.seed, |i| json!({"kind": "cc14", "channel": 0, "msb_controller_number": i, "value": 0, "form": 0}));
+    Report {
+        subs: vec![sub],
+        rule: "exhaustive over the controller numbers; creation through deserialization must agree with the constructor".into(),
+        assumptions: vec!["configuration: features std + serde + serde_repr".into()],
+    }
 }
